@@ -435,6 +435,7 @@ type BurstCase struct {
 	CancelK   int    `json:"cancel_k"`  // cancel this many early callers before the dial finishes
 	Datagram  bool   `json:"datagram"`
 	SecondOK  bool   `json:"second_ok"` // whether a second connection may be dialled (n > limit needs it)
+	Refill    int    `json:"refill"`    // dialing phase: further queries issued after the cancellations, while the dial is still held
 }
 
 func genBurst(t *rapid.T) BurstCase {
@@ -463,6 +464,11 @@ func genBurst(t *rapid.T) BurstCase {
 		}
 		if c.N > 1 && rapid.IntRange(0, 2).Draw(t, "cancelSome") == 0 {
 			c.CancelK = rapid.IntRange(1, c.N-1).Draw(t, "cancelK")
+			if rapid.Bool().Draw(t, "refill") {
+				// more queries arrive while the connection is still dialing; whatever does not fit goes to a second connection
+				c.Refill = rapid.IntRange(1, c.Limit).Draw(t, "refillN")
+				c.SecondOK = true
+			}
 		}
 	}
 	return c
@@ -569,6 +575,33 @@ func runBurst(c BurstCase, ctx *hx.Ctx) *hx.Failure {
 			<-calls[i].done
 		}
 		live = all[c.CancelK:]
+		for i := 0; i < c.Refill; i++ {
+			cl := &call{name: fmt.Sprintf("f%d.c09.test.", i), done: make(chan struct{})}
+			cx, cancel := context.WithCancel(context.Background())
+			cl.cancel = cancel
+			calls = append(calls, cl)
+			live = append(live, len(calls)-1)
+			go burstCall(cx, eng, cl, uint16(300+i))
+		}
+		if c.Refill > 0 {
+			// let them queue up (on the dialing connection, or on a further one)
+			want := min(c.N-c.CancelK+c.Refill, c.Limit)
+			deadline := time.Now().Add(2 * time.Second)
+			for time.Now().Before(deadline) && len(quiesce.With("lazyDnsConnEarlyReservedExchanger).ExchangeReserved")) < want {
+				time.Sleep(200 * time.Microsecond)
+			}
+			time.Sleep(time.Millisecond)
+			if liveNow := c.N - c.CancelK + c.Refill; liveNow > c.Limit {
+				// more live queries than one dialing connection may queue: the transport must have started another dial
+				deadline := time.Now().Add(2 * time.Second)
+				for time.Now().Before(deadline) && env.DialsStarted() < 2 {
+					time.Sleep(200 * time.Microsecond)
+				}
+				if env.DialsStarted() < 2 {
+					return hx.Failf("C09/dialing-queue-exceeded", "queue limit %d while dialing: %d queries were queued, %d cancelled, %d more issued - %d live queries wait on a single dialing connection (no further dial was started)", c.Limit, c.N, c.CancelK, c.Refill, liveNow)
+				}
+			}
+		}
 		openGate()
 	}
 	if c.Dial == "fail" {
@@ -635,7 +668,7 @@ func runBurst(c BurstCase, ctx *hx.Ctx) *hx.Failure {
 	nconn := len(env.Conns())
 	for _, i := range live {
 		if calls[i].err != nil {
-			if c.N <= c.Limit {
+			if c.N <= c.Limit || c.Refill > 0 {
 				sig := "C09/refused-below-limit"
 				if c.Phase == "dialing" || c.Phase == "dialing-late" {
 					sig = "C09/early-query-refused-after-dial"
@@ -653,7 +686,7 @@ func runBurst(c BurstCase, ctx *hx.Ctx) *hx.Failure {
 		}
 	}
 	// capacity is back: the same burst again must need no further connection when n <= limit
-	if c.N <= c.Limit && late == nil {
+	if c.N <= c.Limit && late == nil && c.Refill == 0 {
 		before := env.DialsStarted()
 		calls2 := make([]*call, c.N)
 		for i := range calls2 {
